@@ -1,19 +1,55 @@
 # orchestrator configuration of the C12 check (loaded by tools/props.py)
 from stack import FULL_STACK, FULL_DEPS
 
-ENABLED = False
 SPEC = dict(
     pkg="./harness/c12",
     instrument=FULL_STACK + ["./p2p/protocol/circuitv2/relay", "./p2p/protocol/circuitv2/client", "./p2p/protocol/circuitv2/util",
                              "./p2p/protocol/holepunch"],
     deps=FULL_DEPS,
     level="exploration",
-    level_text="tbd",
-    level_note="tbd",
+    level_text=("seeded search over configurations x histories x schedules of three REAL basic hosts on a simulated TCP network: A (under "
+                "observation), B (the peer, holding a reservation on the relay) and R (real circuit-v2 relay service); every lock, channel "
+                "operation, select and goroutine start of swarm, basic host, identify, circuit client / relay, hole punching, upgrader, "
+                "yamux, multistream is a scheduling decision. Layer A (80% of the runs): 1-4 caller tasks on A call Swarm.NewStream / "
+                "Swarm.DialPeer / Host.NewStream / Host.Connect / Conn.NewStream with every subset of {allow-limited, force-direct, "
+                "no-dial}, own deadlines, dial-peer timeouts and independent cancellation instants while 1-2 environment tasks make B "
+                "reachable / unreachable, create direct connections in both directions, close direct / relayed connections on either "
+                "side, flap a direct connection or close it from inside A's Connected notification; the relay is limited, short-lived "
+                "or unlimited. Layer B (20%): A and B behind simulated stateful firewalls (filtered / open / symmetric), real hole "
+                "punching services with the public tracer, optional link latency; the same callers on A wait for the hole punch. "
+                "History oracles over stamped invocations, notifications, gater admissions, transport dials and tracer events; "
+                "Connectedness compared with the notified connection set at robust quiescent instants. Sampling, not proof."),
+    level_note=("trusted: testing/synctest, the overlay rewrite, simnet's TCP model (no SYN retransmission: a dial towards a firewalled "
+                "host hangs until its context ends; no true simultaneous open: the later of two crossing dials gets through); weaker "
+                "readings: 'direct' for the stream / waiter clauses means not Limited (Stat().Limited; a connection through an UNLIMITED "
+                "relay is relayed but not limited and may carry any stream), 'direct' for force-direct and hole punching means a "
+                "non-relay remote address; failing is always allowed, only streams on limited connections without permission, relayed "
+                "results of force-direct dials, late returns (own deadline + 1 s; pure waits: dial-peer timeout + 1 s), ErrLimitedConn "
+                "without a direct connection having come and gone, and failures although a usable direct connection was open all the "
+                "time / appeared and stayed are reported; a hole-punch success needs a direct connection that was open at some instant "
+                "of the attempt (it may be closed again when the event is traced); the dcutr stream's connection is observed only in the "
+                "2/3 of layer-B runs whose services are built by the harness around a recording host wrapper (the rest uses "
+                "HostOpts.EnableHolePunching unchanged); Swarm.directConnNotifs is read through reflection at quiescent instants"),
     technique="deterministic simulation: seeded lock-level scheduler over instrumented host stack on simnet, history oracles",
     design_ref="DESIGN.md section 5 (C12)",
     quick_s=50, thorough_s=600,
-    rule="tbd",
-    probes=[],
-    real=[], stubs=[], assume=[],
+    rule=("one run = one tape: stratum (layer A / B), relay limits (default, 15 s, unlimited), security (insecure / noise), initial "
+          "connections (limited only, none, direct only, both), B's initial reachability or the firewall modes of A and B, link "
+          "latencies, direct-dial timeout, whether A knows B's direct address, whether relay addresses are advertised for hole "
+          "punching, service wiring, 1-4 callers x 1-3 calls (API, option set, pause, deadline, dial-peer timeout, cancellation "
+          "instant), 0-2 environment tasks x 1-6 steps, sampling pace, and the schedule; non-trivial = at least one call was made, "
+          "at least one quiescent reading was accepted and A saw at least one connection to B; distinct = distinct (scheduler "
+          "decision hash, connection list, per-call outcome, Connectedness readings, event sequence, hole-punch event sequence)"),
+    probes=["waiter-released-by-direct-conn", "waiter-cancelled-or-timed-out", "direct-conn-vanished-before-waiter-woke",
+            "stream-on-limited-conn-allowed", "force-direct-succeeded", "quiescent-limited-only", "quiescent-both",
+            "hole-punch-attempted", "hole-punch-succeeded", "hole-punch-failed", "holepunch-direct-dial-succeeded",
+            "holepunch-direct-dial-failed", "holepunch-protocol-error", "dcutr-stream-on-direct-conn"],
+    real=["ALL of the following run as tasks of the seeded scheduler (instrumented)", "swarm (conns, waiter list, dial worker, dial sync, "
+          "connectedness, emitter)", "basic host (NewStream, Connect), identify", "circuitv2 relay service and client transport "
+          "(Reserve, dial, stop handler, limited flag)", "holepunch service and hole puncher (dcutr exchange, direct dial, retries, tracer)",
+          "tcp transport dial path, upgrader + listener, noise / insecure, multistream-select, yamux", "pstoremem, eventbus"],
+    stubs=["wire: simnet TCP model", "stateful firewall predicate (inbound accepted only from an IP dialled within the last 2 s)",
+           "recording wrappers that only delegate: connection gater, circuit transport Dial, host handed to the hole punching service"],
+    assume=["virtual clock of testing/synctest", "no process stalls (timing oracles use 1 s slack)",
+            "zero virtual time passes between a connection becoming unusable and its Disconnected notification"],
 )
